@@ -131,7 +131,11 @@ class Engine(GenericConcreteEngine[Callable[..., Any]]):
                     return tree, commutator.done, commutator.messages
                 else:
                     upstream, done, messages = self.backtrack_unary(commutator.first, target, preferred)
-                    if upstream is not target:
+                    if upstream is not target or (done and commutator.second != tree.operation):
+                        # Either something was inserted upstream, or the
+                        # commuted operation turned out to do nothing there;
+                        # in both cases the commuted version of the current
+                        # operation replaces it.
                         result = commutator.second._finish_apply(upstream)
                     else:
                         result = tree
